@@ -684,20 +684,17 @@ func (cfg *Config) wordFields(wps []syntax.WordPart) ([][]fieldPart, error) {
 				})
 				s = rest
 			}
-			if strings.Contains(s, "\\") {
-				sb := cfg.strBuilder()
-				for i := 0; i < len(s); i++ {
-					b := s[i]
-					if b == '\\' {
-						if i++; i >= len(s) {
-							sb.WriteByte(b)
-							break
-						}
-						b = s[i]
-					}
-					sb.WriteByte(b)
+			// An escaped character is quoted: "\*" is an asterisk, not a pattern.
+			for {
+				before, after, found := strings.Cut(s, "\\")
+				if !found || after == "" {
+					break // no backslash, or a trailing one which stays
 				}
-				s = sb.String()
+				_, size := utf8.DecodeRuneInString(after)
+				curField = append(curField,
+					fieldPart{val: before},
+					fieldPart{quote: quoteSingle, val: after[:size]})
+				s = after[size:]
 			}
 			curField = append(curField, fieldPart{val: s})
 		case *syntax.SglQuoted:
